@@ -980,6 +980,20 @@ var scenarioTable = map[string]func(s *sc){
 		s.flushAll(func(p pending, k string) bool { return p.to == 3 && msgHeight(p) == 1 })
 		s.flush(any)
 	},
+	// C09 (environment fault, nobody Byzantine acts): the transport fails exactly on the COMMIT broadcast n2 makes when it becomes
+	// prepared; every other COMMIT is lost too; everybody times out.  n2 holds the certificate all the same: its vote carries it.
+	"commit_broadcast_fails_when_becoming_prepared_then_timeout": func(s *sc) {
+		s.startNodes()
+		s.flush(kinds("PP"))
+		s.node(2).failNext = "C"
+		s.flush(kinds("P"))
+		s.dropAll(kinds("C"))
+		for _, i := range []int{0, 1, 2} {
+			s.timeout(i)
+		}
+		s.flush(kinds("VC"))
+		s.flush(any)
+	},
 	// lagging node (all honest): n3 receives the traffic of height 2 first (future cache), then height 1; the
 	// commit of height 1 starts round 2, whose drain commits height 2 in the middle (H11 in situ)
 	"lagging_node_drains_cached_height": func(s *sc) {
@@ -1023,7 +1037,8 @@ func scenarioByz(name string) []int {
 	case "lagging_node_drains_cached_height", "new_view_reaches_member_that_has_not_timed_out", "new_view_two_views_ahead_reaches_member_in_view_0":
 		return nil
 	case "lagging_member_with_foreign_instance_prepare_in_its_future_cache", "byzantine_commit_for_another_hash_before_two_genuine_commits",
-		"byzantine_commit_with_share_copied_from_a_genuine_commit", "vote_with_genuine_proof_and_another_block_to_a_leader_holding_the_proposal":
+		"byzantine_commit_with_share_copied_from_a_genuine_commit", "vote_with_genuine_proof_and_another_block_to_a_leader_holding_the_proposal",
+		"commit_broadcast_fails_when_becoming_prepared_then_timeout":
 		return []int{3}
 	case "fork_via_proof_with_prepares_of_older_view", "heavy_pair_vote_with_unvalidated_block_but_no_proof", "round_of_another_instance_replayed_to_a_lagging_member":
 		return []int{2}
